@@ -9,12 +9,13 @@ def run(ctx):
     parts = shm.run_single(ctx, b, ["stopenum", "--focus", "C04", "--seed", str(ctx.seed), "--schedules", "16" if q else "128"], NPROC, 3000)
     ecov, eviol, esamples = shm.merge_sched(parts)
     plans = max([p.get("stop_plans", 0) for p in parts if p] or [0])
+    crashed = any(p and p.get("_crashed") for p in parts)
     table = {}
     for p in parts:
         if p:
             for k, v in p.get("stop_table", {}).items():
                 table[k] = table.get(k, 0) + v
-    start_states = next((p.get("start_states") for p in parts if p), [])
+    start_states = next((p.get("start_states") for p in parts if p and p.get("start_states")), [])
     ctx.log("stopenum: %d plans, %d (start|site) cells reached, %d scenarios" % (plans, len(table), ecov["scenarios"]))
     cov, viol, samples = shm.run_sched(ctx, b, "C04", 20000 if q else 1000000)
     ctx.log("sched: %d scenarios, stops %d restarts %d takeovers %d wipes %d" % (cov["scenarios"], cov["stops"], cov["restarts"], cov["takeovers"], cov["wipes"]))
@@ -25,7 +26,9 @@ def run(ctx):
     ctx.log("proc (SIGKILL/restart of real writer processes, guard off): %s" % pagg)
     viol += pviol
     inconclusive = None
-    if plans < 100 or len(table) < plans or ecov["after_crash_calls"] < 1000 or ecov["takeovers"] < 100 or ecov["wipes"] < 100 or magg["stops"] < 20:
+    if crashed:
+        pass
+    elif plans < 100 or len(table) < plans or ecov["after_crash_calls"] < 1000 or ecov["takeovers"] < 100 or ecov["wipes"] < 100 or magg["stops"] < 20:
         inconclusive = "fault enumeration incomplete (plans %d, cells reached %d, calls after a crash %d, takeovers %d, wipes %d, miri stops %d)" % (
             plans, len(table), ecov["after_crash_calls"], ecov["takeovers"], ecov["wipes"], magg["stops"])
     if ecov["shards_lost"] or cov["shards_lost"] or mlost > (1 if q else 8):
